@@ -72,6 +72,13 @@ class UniverseLaws(base.BaseObject):
             raise ValueError(
                 "Given edge_whitelist is of incorrect structure!"
             ) from exc
+        if edge_whitelist is not None:
+            # keep our own copy: later changes to the caller's dictionaries
+            # must not change these laws
+            self._edge_whitelist = {
+                t: dict(linkset.items())
+                for t, linkset in edge_whitelist.items()
+            }
 
         #: whether or not mixed link types are allowed
         #:
